@@ -127,7 +127,11 @@ def run(tier, replay):
         # the one control message the client knows, as the beginning of a line of the file (plain mode)
         sy = os.path.join(wd, "syn.json")
         rc, out = vlib.go_test(wd, "./internal/clients/connectors", OV, "TestC01SynText", env={"VERIF_OUT": sy}, timeout=300)
-        if rc != 0 or not os.path.exists(sy):
+        if rc != 0 and vlib.died_in_dtail(out) >= 0:
+            i = vlib.died_in_dtail(out)
+            V.violation("plain mode: the client died on a file with lines that look like protocol messages: " + out[i:i + 100].splitlines()[0], {"output": out[i:i + 1500]})
+            open(sy, "w").write("[]")
+        elif rc != 0 or not os.path.exists(sy):
             raise vlib.Inconclusive("syn text harness failed\n" + out[-2500:])
         for b in json.load(open(sy)):
             if b["equal"]:
